@@ -9,7 +9,7 @@ use std::time::{Duration, Instant};
 pub fn slicec_path() -> PathBuf {
     std::env::var_os("VCHECK_SLICEC")
         .map(PathBuf::from)
-        .unwrap_or_else(|| PathBuf::from("/verif/target/repo/debug/slicec"))
+        .unwrap_or_else(|| PathBuf::from(format!("{}/target/repo/debug/slicec", crate::engine::verif_root())))
 }
 
 pub fn fakegen_path() -> PathBuf {
